@@ -213,6 +213,7 @@ class ReplayModel(SeqModel):
         self.touched = []
         self.depth = 0
         self.draining = False
+        self.auto_drain = True  # False: the caller decides when the scheduler gets to run (flush())
 
     def deliver(self, oid, kind, value, optional=False):
         self.queues.setdefault(oid, []).append((kind, value))
@@ -233,13 +234,17 @@ class ReplayModel(SeqModel):
                 self.acquired.add(oid)
                 self.runq.append(oid)
         del self.touched[mark:]
-        if self.depth == 0 and not self.draining:
+        if self.depth == 0 and self.auto_drain:
+            self.flush()
+        return r
+
+    def flush(self):
+        if not self.draining:
             self.draining = True
             try:
                 self.drain()
             finally:
                 self.draining = False
-        return r
 
     def drain(self):
         while self.runq:
